@@ -9,6 +9,20 @@ NOTE = ("Trusted: Coq 8.16.1 kernel + vm_compute; tools/gen_consts.py; the Rust 
 TECH = "machine-checked proof in Coq (Rocq) over a Gallina model + differential correspondence check against the Rust code"
 
 CLAIMED = {
+    "C07": {
+        "text": "Refinement theorem c07_refines_spec (props/C07.v): for EVERY history of announces and lookups with non-decreasing time "
+                "stamps, every reply of the modelled AnnounceStorage equals the reply of an abstract map (info-hash,address) -> time of "
+                "last successful announce: lookups return a duplicate-free list of exactly the addresses announced < 24 h ago; an "
+                "announce is accepted iff the pair is live (renewal) or fewer than 500 distinct pairs are live, sets only that pair's "
+                "time, and a refused announce changes nothing; c07_capacity: never more than 500 pairs. Unbounded induction over "
+                "histories, kernel-checked, no axioms. Tie: 24 h and 500 are read from src/storage.rs by the translator (the theorems "
+                "are stated with the property's numbers, so drift breaks the proof); the real AnnounceStorage is run under the virtual "
+                "clock on boundary-biased scripts (24 h +-1 ns, 498..502 pairs) and compared reply by reply with the model in Coq; an "
+                "executable checker of the spec (c07_ok) is evaluated on the real replies and failing scripts are shrunk. The handler "
+                "part of C07 (contact address from port/implied port, family filter) is covered by the handler model of C05.",
+        "ref": "7/C07", "axioms": "none",
+        "note_extra": "Assumption A-TIME (one clock reading per operation, monotone clock). The per-hash HashMap vectors are represented by one insertion-ordered list.",
+    },
     "C19": {
         "text": "Theorems (props/C19.v) over the Gallina model of AIDGenerator/MIDGenerator and TransactionID: for every "
                 "shuffle oracle that returns permutations and any number of draws, message ids of one activity do not repeat "
